@@ -192,11 +192,11 @@ pub fn plant(base: &LedgerCase, it: &Intent) -> Option<RejectCase> {
             cause = "fractional-whole-number-reverse-split";
         }
         _ => {
-            let c: Vec<&(String, Rat, Rat)> = nonreg.iter().filter(|x| x.1.floor_dp(10).is_pos()).collect();
+            let c: Vec<&(String, Rat, Rat)> = nonreg.iter().filter(|x| crate::gen::sellable(&x.1).is_pos()).collect();
             if c.is_empty() { return None; }
             let (id, bal, acb) = crate::gen::pick(it.af, &c).clone();
             row.af = name_of(&id);
-            let q = if it.flag % 2 == 0 { bal.floor_dp(10) } else { bal.div(&Rat::from_i64(2)).floor_dp(4).max(&tiny).min(&bal.floor_dp(10)) };
+            let q = if it.flag % 2 == 0 { crate::gen::sellable(&bal) } else { crate::gen::no_dust(&bal, bal.div(&Rat::from_i64(2)).floor_dp(4).max(&tiny).min(&crate::gen::sellable(&bal)), &crate::gen::sellable(&bal)) };
             row.shares = s10(&q);
             let per = acb.div(&bal);
             if cause_ix == 7 {
